@@ -43,7 +43,7 @@ theorem pure_apply {α} (a : α) (st : St) : (pure a : M α) st = .ok (a, st) :=
 theorem goPanic_apply (st : St) : goPanic st = .error () := rfl
 theorem setErr_apply (s n : Bool) (st : St) :
     setErr s n st = .ok (.nil, if st.err.isSome then st else { st with err := some ⟨s, n⟩ }) := rfl
-theorem unsupp_apply (st : St) : unsupp st = .ok (.nil, { st with unsupported := true }) := rfl
+theorem unsupp_apply (st : St) : unsupp st = .ok (.nil, { st with unsupported := true, err := if st.err.isSome then st.err else some ⟨false, false⟩ }) := rfl
 theorem logCall_apply (c : String) (st : St) : logCall c st = .ok ((), { st with calls := c :: st.calls }) := rfl
 theorem hasErr_apply (st : St) : hasErr st = .ok (st.err.isSome, st) := rfl
 
@@ -143,7 +143,7 @@ theorem Resp.unsuppN : Resp RN unsupp := by
   intro st r s h
   rw [unsupp_apply] at h
   cases h
-  exact ⟨rfl, fun _ hx => hx⟩
+  exact ⟨rfl, fun _ hx => by simp [hx]⟩
 
 theorem Resp.setErr (hR : Good R) (a b : Bool) : Resp R (setErr a b) := Resp.ofN hR (Resp.setErrN a b)
 theorem Resp.unsupp (hR : Good R) : Resp R unsupp := Resp.ofN hR Resp.unsuppN
